@@ -36,6 +36,7 @@ from vf import conslogs, kwire
 from vf.explore import Alt
 from vf.runner import h64
 from vf.simkafka import Cluster
+from vf.simloop import T0
 
 T_CALL = 0.3  # virtual seconds a blocking program call may take before the program moves on
 T_PROG = 4.0  # bound for the whole program phase
@@ -475,10 +476,12 @@ class ConsumerScenario:
         world = self.world
         p = self.p
         H = p.get("horizon", 4.0)
-        t_end = world.loop.time() + H
+        t0 = world.loop.time()
         done_at = None
         k = 0
-        while world.loop.time() < t_end:
+        # bounded liveness: H of quiet virtual time, counted from the start of polling or from the last deviation
+        # (fault, reordering, injected event) the explorer made, whichever is later
+        while world.loop.time() < max(t0, getattr(world, "last_dev_t", 0.0) + T0) + H:
             m = self._model_now()
             if m.all_returned():
                 if done_at is None:
